@@ -16,6 +16,7 @@ META = {
     'not_decided': ['the allocation ledger itself (each object released exactly once as a count over a run)',
                     'release at every instruction-level abort point (we decide only that all exits share the one release path)'],
 }
+META['explanation'] += " R04.11 a collection started by a return runs after the returning function's frame was popped."
 GCN = 'gc::GC::'
 
 
